@@ -27,6 +27,10 @@ type c09Case struct {
 	Channel string   `json:"channel"` // one-file | multi-p | list | stdin | p-then-list
 	File    string   `json:"file"`
 	Family  string   `json:"family"`
+	// Repeat: the last patch file has the text of the first one and is not
+	// written again: the same path is named twice (-p a -p b -p a, or twice
+	// in the -P list). The chain runs its changes a second time.
+	Repeat bool `json:"repeat,omitempty"`
 
 	formatted bool // the file was put through gofmt for a second look
 }
@@ -88,6 +92,13 @@ func c09Combined(cs *c09Case) (out []byte, exit int, stderr string, harnessErr s
 			k++
 		}
 		p := filepath.Join(dir, fmt.Sprintf("p%d.patch", fi))
+		if cs.Repeat && fi == len(cs.Split)-1 && fi > 0 {
+			first, _ := os.ReadFile(files[0])
+			if string(first) == b.String() {
+				files = append(files, files[0])
+				continue
+			}
+		}
 		if err := os.WriteFile(p, []byte(b.String()), 0o644); err != nil {
 			return nil, 0, "", err.Error()
 		}
@@ -601,6 +612,48 @@ func c09GeneratedDecls(rt *rapid.T) *c09Case {
 	return cs
 }
 
+// c09Signatures: an earlier change writes the result list of a function
+// (none, one unnamed, one named, several; spelled out or what an elision
+// leaves over), a later change has that signature on its context lines,
+// spelled the way the intermediate file shows it or with "(...)". What the
+// earlier change leaves in the tree has to look to the later one like the
+// text a run of its own would have read.
+func c09Signatures(rt *rapid.T) *c09Case {
+	cs := &c09Case{Family: "synthetic-signatures"}
+	cs.File = "package p\n\nfunc load(path string, n int) error {\n\tprepare(path)\n\treturn run(path, n)\n}\n\nfunc save(path string) (n int, err error) {\n\tprepare(path)\n\treturn 0, nil\n}\n\nfunc other() {}\n"
+	var first string
+	var seconds []string
+	if rapid.Bool().Draw(rt, "elided") {
+		first = rapid.SampledFrom([]string{
+			"@@\n@@\n-func save(...) (n int, ...) {\n+func save(...) (...) {\n   ...\n }\n",
+			"@@\n@@\n-func save(...) (..., err error) {\n+func save(...) (...) {\n   ...\n }\n",
+			"@@\n@@\n-func save(...) (n int, err error) {\n+func save(...) {\n   ...\n }\n",
+			"@@\n@@\n-func save(...) (n int, ...) {\n+func save(...) (n, m int, ...) {\n   ...\n }\n",
+		}).Draw(rt, "first")
+		seconds = []string{"(...)", "(err error)", "(n int)", "", "(n, m int, err error)", "(n, m int, ...)"}
+		res := rapid.SampledFrom(seconds).Draw(rt, "secondResults")
+		if res != "" {
+			res += " "
+		}
+		cs.Changes = []string{first, "@@\n@@\n func save(...) " + res + "{\n+  defer annotate()\n   ...\n }\n"}
+	} else {
+		to := rapid.SampledFrom([]string{"(err error)", "(error)", "(int, error)", "", "(_ error)", "(e1, e2 error)"}).Draw(rt, "to")
+		if to != "" {
+			to += " "
+		}
+		first = "@@\n@@\n-func load(...) error {\n+func load(...) " + to + "{\n   ...\n }\n"
+		res := rapid.SampledFrom([]string{"(err error)", "error", "(error)", "(int, error)", "", "(...)", "(_ error)", "(e1, e2 error)", "(e1 error, ...)"}).Draw(rt, "secondResults")
+		if res != "" {
+			res += " "
+		}
+		cs.Changes = []string{first, "@@\n@@\n func load(...) " + res + "{\n+  defer annotate()\n   ...\n }\n"}
+	}
+	if rapid.Bool().Draw(rt, "third") {
+		cs.Changes = append(cs.Changes, "@@\nvar x expression\n@@\n-prepare(x)\n+prepared(x)\n")
+	}
+	return cs
+}
+
 var c09Opts = modelOpts{
 	Mine:         gen.MineOpts{MaxHoles: 2, MaxDots: 1},
 	MaxHostLines: 150,
@@ -669,6 +722,8 @@ func TestC09(t *testing.T) {
 					cs = c09Shadow(rt)
 				case 3, 4:
 					cs = c09GeneratedDecls(rt)
+				case 5, 6:
+					cs = c09Signatures(rt)
 				}
 			} else {
 				cs = c09Synthetic(rt)
@@ -694,6 +749,12 @@ func TestC09(t *testing.T) {
 			cs.Split = append(cs.Split, k)
 			rest -= k
 		}
+		if len(cs.Split) > 1 && rapid.IntRange(0, 5).Draw(rt, "repeatFirstFile") == 0 {
+			cs.Repeat = true
+			cs.Changes = append(cs.Changes, cs.Changes[:cs.Split[0]]...)
+			cs.Split = append(cs.Split, cs.Split[0])
+			n = len(cs.Changes)
+		}
 		if len(cs.Split) == 1 {
 			cs.Channel = rapid.SampledFrom([]string{"one-file", "stdin", "list"}).Draw(rt, "channel1")
 		} else {
@@ -706,7 +767,7 @@ func TestC09(t *testing.T) {
 		}
 		nontriv := (info.Applied >= 2 && info.Depends) || (info.Failed >= 0 && info.Applied >= 1)
 		c.Case(evid.Hash(strings.Join(cs.Changes, "\x00"), cs.File, cs.Channel, fmt.Sprint(cs.Split)), nontriv,
-			"family:"+cs.Family, "channel:"+cs.Channel, fmt.Sprintf("changes:%d", n), fmt.Sprintf("patch-files:%d", len(cs.Split)),
+			"family:"+cs.Family, "channel:"+cs.Channel, fmt.Sprintf("patch-file-named-twice:%v", cs.Repeat), fmt.Sprintf("changes:%d", n), fmt.Sprintf("patch-files:%d", len(cs.Split)),
 			fmt.Sprintf("applied:%d", min(info.Applied, 4)), fmt.Sprintf("failing-step:%v", info.Failed >= 0), fmt.Sprintf("depends-on-predecessor:%v", info.Depends))
 		if nontriv && c.WantSample() {
 			c.Sample(map[string]any{"changes": cs.Changes, "split": cs.Split, "channel": cs.Channel, "file_bytes": len(cs.File), "applied": info.Applied, "failed_step": info.Failed})
